@@ -122,12 +122,27 @@ func VerifC03_OneHop() {
 		DisableSinglePostUpload:      verifBool("noSinglePost"),
 	}
 	c, _ := vsStack(regS, opts)
+	// calls=1: one call from the prepared state; calls=2 (thorough): every two-call
+	// history (the second call's choices are named repo2, digest2, tag2, method2)
+	calls := verifParam("calls", 1)
+	for ci := 0; ci < calls; ci++ {
+		sfx := ""
+		if ci > 0 {
+			sfx = "2"
+		}
+		c03call(w, regD, regS, c, sfx)
+		verifAssert(c03sameState(w, regD, regS), "same-resulting-state")
+	}
+	verifCover("end")
+}
+
+func c03call(w *c03world, regD, regS *ocimem.Registry, c ociregistry.Interface, sfx string) {
 	ctx := context.Background()
-	repo := []string{"a/b", "c"}[verifChoose("repo", 2)]
+	repo := []string{"a/b", "c"}[verifChoose("repo"+sfx, 2)]
 	digs := []ociregistry.Digest{w.bdig, w.b2dig, w.mdig}
-	dig := digs[verifChoose("digest", 3)]
-	tag := []string{"t1", "t2"}[verifChoose("tag", 2)]
-	switch verifChoose("method", 14) {
+	dig := digs[verifChoose("digest"+sfx, 3)]
+	tag := []string{"t1", "t2"}[verifChoose("tag"+sfx, 2)]
+	switch verifChoose("method"+sfx, 14) {
 	case 0:
 		rd, e1 := regD.GetBlob(ctx, repo, dig)
 		rh, e2 := c.GetBlob(ctx, repo, dig)
@@ -135,6 +150,9 @@ func VerifC03_OneHop() {
 	case 1:
 		o0, o1 := verifInt64("o0"), verifInt64("o1")
 		verifAssume(o0 >= 0 && o0 < 100 && o1 < 100 && o1 >= -1)
+		if sfx != "" {
+			verifAssume(o0 != o1) // known finding F10 is reported for the first call only
+		}
 		rd, e1 := regD.GetBlobRange(ctx, repo, dig, o0, o1)
 		rh, e2 := c.GetBlobRange(ctx, repo, dig, o0, o1)
 		verifAssert((e1 == nil) == (e2 == nil), "GetBlobRange-same-success")
@@ -228,8 +246,6 @@ func VerifC03_OneHop() {
 			verifAssert(same, "Tags-same-items")
 		}
 	}
-	verifAssert(c03sameState(w, regD, regS), "same-resulting-state")
-	verifCover("end")
 }
 
 func init() {
